@@ -1,2 +1,62 @@
-(* placeholder while the proofs are being written: replaced before the property is registered *)
-Theorem C03_pending : True. Proof. exact I. Qed.
+(* C03 — SRC sections display the encoded words, flags and every callout faithfully. *)
+From Coq Require Import List NArith ZArith Bool Arith.
+From PV Require Import Base.Bytes Base.Lit Base.Json Base.Reader Base.PelTypes Model.Parse Model.Render Spec.Encode Spec.DocOf Gen.Tables
+                       Proofs.SrcFacts Proofs.RenderFacts Proofs.SrcRenderFacts.
+Import ListNotations.
+Open Scope N_scope.
+
+Theorem C03_tables_agree :
+  (Flags_pnSupplied = 8 /\ Flags_ccinSupplied = 4 /\ Flags_maintProcSupplied = 2 /\ Flags_snSupplied = 1 /\ HeaderFlags_additionalSections = 1) /\
+  Gen.Tables.failingComponentType = PublishedTables.failingComponentType /\
+  Gen.Tables.calloutPriorityValues = PublishedTables.calloutPriorityValues /\
+  Gen.Tables.SRCType_bmcError = L "BD" /\ Gen.Tables.SRCType_powerError = L "11" /\ Gen.Tables.SRCType_hostbootError = L "BC" /\
+  HeaderFlags_virtualProgressSRC = 128 /\ HeaderFlags_i5OSServiceEventBit = 16 /\ HeaderFlags_hypDumpInit = 4 /\
+  ErrorStatusFlags_terminateFwErr = 536870912 /\ ErrorStatusFlags_deconfigured = 33554432 /\ ErrorStatusFlags_guarded = 16777216.
+Proof. exact (conj flags_agree tables_agree_src). Qed.
+Print Assumptions C03_tables_agree.
+
+(* the substructure walk of one callout reads exactly the encoded substructures, whatever follows *)
+Theorem C03_substructures_exact : forall ss fuel size cur acc rest,
+  Forall wf_sub ss -> (length ss < fuel)%nat -> size = cur + subs_size ss ->
+  parse_subs fuel size cur acc (flat_map enc_sub ss ++ rest) = Some (Some (rev acc ++ ss), rest).
+Proof. exact parse_subs_exact. Qed.
+Print Assumptions C03_substructures_exact.
+
+(* the callout subsection lists exactly the encoded callouts, in order, and stops at the subsection's declared length *)
+Theorem C03_callouts_exact : forall l fuel wlen4 cur acc rest,
+  Forall wf_callout l -> (length l + 4 <= fuel)%nat -> wlen4 = cur + callouts_size l ->
+  parse_callout_list fuel wlen4 cur acc (flat_map enc_callout l ++ rest) = Some (Some (rev acc ++ l), rest).
+Proof. exact parse_callout_list_exact. Qed.
+Print Assumptions C03_callouts_exact.
+
+(* the whole SRC body is read back into exactly the stored fields, for any continuation *)
+Theorem C03_src_fields : forall s rest, wf_src s -> parse_src (enc_src s ++ rest) = Some (Some s, rest).
+Proof. exact parse_src_enc. Qed.
+Print Assumptions C03_src_fields.
+
+(* each callout shows its priority, location code, FRU type, part number / procedure (+ description), CCIN, serial number,
+   PCE MTMS / name and MRU ids as encoded; Callout Count is their number *)
+Theorem C03_callout_display : forall e c creator co, structured e -> wf_callout co ->
+  option_map JObj (render_callout e c creator co) = Some (doc_callout (sp_of e) (allow_plugins c) creator co).
+Proof. exact render_callout_spec. Qed.
+Print Assumptions C03_callout_display.
+Theorem C03_callouts_display : forall e c creator cs, structured e -> wf_callouts cs ->
+  render_callouts e c creator cs =
+    Some [(L "Callout Count", num (N.of_nat (length (cs_list cs))));
+          (L "Callouts", JArr (map (doc_callout (sp_of e) (allow_plugins c) creator) (cs_list cs)))].
+Proof. exact render_callouts_spec. Qed.
+Print Assumptions C03_callouts_display.
+
+(* reference code, word count, hex words 2..9, format/version, the six flag bits, backplane CCIN: as the specification says *)
+Theorem C03_src_display : forall e c h creator s, structured e -> wf_hdr h -> wf_src s ->
+  render_src e c h [creator] s = Some (doc_src (se_of e) (sp_of e) (allow_plugins c) creator h s).
+Proof. exact render_src_spec. Qed.
+Print Assumptions C03_src_display.
+
+(* non-vacuity: two callouts, the first followed directly by one whose location code starts with "ID" *)
+Example C03_example :
+  let f := {| f_size := 0; f_flags := 16 + 8; f_pn := L "PN123456"; f_ccin := []; f_sn := [] |} in
+  let c1 := {| c_size := 16; c_flags := 0; c_prio := 72; c_loc := []; c_subs := [SubFru f] |} in
+  let c2 := {| c_size := 20; c_flags := 0; c_prio := 77; c_loc := L "ID01"; c_subs := [SubFru f] |} in
+  parse_callout_list 6 40 4 [] (flat_map enc_callout [c1; c2] ++ L "IDxx") = Some (Some [c1; c2], L "IDxx").
+Proof. vm_compute. reflexivity. Qed.
